@@ -161,6 +161,8 @@ Theorem C17_rel_reflexive : forall a eps rel : F, is_nanb a = false -> f_releq a
 Proof. exact releq_refl. Qed.
 Theorem C17_abs_symmetric : forall a b eps : F, f_absdiffeq a b eps = f_absdiffeq b a eps.
 Proof. exact absdiffeq_sym. Qed.
+Theorem C17_rel_symmetric : forall a b eps rel : F, f_releq a b eps rel = f_releq b a eps rel.
+Proof. exact releq_sym. Qed.
 Theorem C17_nan_never : forall a b eps : F, is_nanb a = true \/ is_nanb b = true -> f_absdiffeq a b eps = false.
 Proof. exact absdiffeq_nan. Qed.
 
